@@ -8,6 +8,7 @@
 package mgmt
 
 import (
+	"math"
 	"strconv"
 	"time"
 
@@ -112,6 +113,14 @@ func (r *RIBModule) register(interest *spec.Interest, pitToken []byte, inFace ui
 
 	expirationPeriod := (*time.Duration)(nil)
 	if params.ExpirationPeriod != nil {
+		// Milliseconds, kept as a time.Duration (int64 nanoseconds): a period beyond its
+		// range would wrap around to some other, possibly negative, period
+		if *params.ExpirationPeriod > uint64(math.MaxInt64/int64(time.Millisecond)) {
+			core.LogWarn(r, "ExpirationPeriod ", *params.ExpirationPeriod, " is out of range in ", interest.Name())
+			response = makeControlResponse(400, "ControlParameters is incorrect", nil)
+			r.manager.sendResponse(response, interest, pitToken, inFace)
+			return
+		}
 		expirationPeriod = new(time.Duration)
 		*expirationPeriod = time.Duration(*params.ExpirationPeriod) * time.Millisecond
 	}
